@@ -14,6 +14,11 @@ type ChainConfig struct {
 	// Levels draws the upgrade configuration (default level and per-package overrides)
 	// instead of allowing every upgrade.
 	Levels bool
+	// Prereleases puts, in some chains, a pre-release of a small bump (k.0.1-rc.1 or
+	// k.1.0-beta) right above a release; it depends on what that release depends on, so it
+	// fixes nothing, and a relaxation has to look past it to the next release, whose bump may
+	// be bigger than the configured level allows.
+	Prereleases bool
 }
 
 // GenChainScenario builds an npm universe in which every relaxation of a direct
@@ -52,6 +57,10 @@ func GenChainScenario(t *rapid.T, cc ChainConfig) Scenario {
 		split := n >= 4 && rapid.Bool().Draw(t, "chain_split")
 		if split {
 			family = "chain_split"
+		}
+		pre := cc.Prereleases && step != LevelPatch && rapid.IntRange(0, 9).Draw(t, "chain_prereleases") < 4
+		if pre {
+			family += "_prereleases"
 		}
 		var first string
 		var pair []string
@@ -113,6 +122,24 @@ func GenChainScenario(t *rapid.T, cc ChainConfig) Scenario {
 				used[l] = true
 				schema = append(schema, fmt.Sprintf("    %s@^1.0.0", l))
 			}
+			if pre && k < n {
+				// a pre-release right above this release, with the same dependencies
+				var v string
+				switch {
+				case step == LevelMajor && rapid.Bool().Draw(t, "pre_minor"):
+					v = fmt.Sprintf("%d.1.0-beta", k)
+				case step == LevelMajor:
+					v = fmt.Sprintf("%d.0.1-rc.1", k)
+				case step == LevelMinor:
+					v = fmt.Sprintf("1.%d.1-rc.1", k-1)
+				}
+				if v != "" {
+					schema = append(schema, "  "+v)
+					for _, l := range set {
+						schema = append(schema, fmt.Sprintf("    %s@^1.0.0", l))
+					}
+				}
+			}
 		}
 		req := "^1.0.0"
 		switch step {
@@ -149,7 +176,7 @@ func GenChainScenario(t *rapid.T, cc ChainConfig) Scenario {
 			if s.Levels.Packages == nil {
 				s.Levels.Packages = map[string]string{}
 			}
-			s.Levels.Packages[tops[x%len(tops)]] = genLevel(t, "top_level.level", [4]int{0, 20, 20, 60})
+			s.Levels.Packages[tops[x%len(tops)]] = genLevel(t, "top_level.level", [4]int{0, 30, 30, 40})
 		}
 	}
 	return s
